@@ -397,6 +397,8 @@ def rule_uuid_uses(ctx: Ctx) -> None:
 
 
 def run(ctx: Ctx) -> None:
+    from rules import generic as _G
+    ctx.run(_G.rule_arity, ("perception_eval.evaluation.metrics.tracking",), "R-ARITY", 5)
     ctx.run(rule_accounting)
     ctx.run(rule_pairing)
     ctx.run(rule_history)
